@@ -188,7 +188,36 @@ func CleanName(s string) string {
 			b.WriteByte(ch)
 		}
 	}
-	return b.String()
+	out := b.String()
+	if len(typeAlias) > 0 {
+		out = applyTypeAlias(out)
+	}
+	return out
+}
+
+// typeAlias maps the clean name of a renamed named type ("fracmanager.fractionProxy") to the name
+// the rules know it by ("fracmanager.proxyFrac"); see ANCHORS.
+var typeAlias = map[string]string{}
+
+func applyTypeAlias(s string) string {
+	for now, old := range typeAlias {
+		for from := 0; ; {
+			i := strings.Index(s[from:], now)
+			if i < 0 {
+				break
+			}
+			i += from
+			end := i + len(now)
+			// whole qualified identifier only
+			if (i > 0 && (isIdent(s[i-1]) || s[i-1] == '/')) || (end < len(s) && isIdent(s[end])) {
+				from = end
+				continue
+			}
+			s = s[:i] + old + s[end:]
+			from = i + len(old)
+		}
+	}
+	return s
 }
 
 func isIdent(c byte) bool {
